@@ -283,6 +283,13 @@ class ScenarioLoader:
 
     def _parse_exploits(self):
         exploits = self.yaml_dict[u.EXPLOITS]
+        if isinstance(exploits, dict):
+            # definitions are normalised in place: work on copies, since YAML
+            # aliases make several names share one definition object
+            exploits = {
+                n: (dict(e) if isinstance(e, dict) else e)
+                for n, e in exploits.items()
+            }
         self._validate_exploits(exploits)
         self.exploits = exploits
 
@@ -325,6 +332,12 @@ class ScenarioLoader:
 
     def _parse_privescs(self):
         self.privescs = self.yaml_dict[u.PRIVESCS]
+        if isinstance(self.privescs, dict):
+            # see _parse_exploits: do not normalise shared (aliased) objects
+            self.privescs = {
+                n: (dict(pe) if isinstance(pe, dict) else pe)
+                for n, pe in self.privescs.items()
+            }
         self._validate_privescs(self.privescs)
 
     def _validate_privescs(self, privescs):
